@@ -3,7 +3,8 @@
    Hand-written, total, executable transcription of
      idpyoidc.message.oauth2.AuthorizationRequest.verify / PushedAuthorizationRequest.verify / merge,
      idpyoidc.message.oidc.AuthorizationRequest.verify (the checks after the merge),
-     idpyoidc.message.Message.from_jwt / _gather_keys  (alg none => no verification),
+     idpyoidc.message.Message.from_jwt / _gather_keys  (alg none => no verification; an encrypted wrapper is
+       opened first and what is inside is verified as a JWS or, when it is not one, read as JSON: open_wrapper),
      cryptojwt KeyJar.get_jwt_verify_keys / JWS.verify_compact (idealised: keys are numbers, a signature is
        a symbolic term Sig k (header alg, claims); see Lib/Crypto.v),
      idpyoidc.server.client_authn.verify_client restricted to RequestParam / PublicAuthn / NoneAuthn,
@@ -81,9 +82,40 @@ Definition alg_kind (a : pystr) : algk :=
 
 (* what the signature bytes are: a genuine signature by private key s_key over (header with s_alg, s_claims) *)
 Record signed := { s_key : nat; s_alg : pystr; s_claims : params }.
+(* the encrypted wrapper: a compact JWE.  JOpens = addressed to an encryption key of the provider and intact;
+   JNoKey = addressed to a key the provider does not have; JDamaged = truncated / altered (decryption raises).
+   j_cty_jwt = the JWE header says cty "JWT" (any letter case): only cryptojwt's JWT.unpack (RequestParam) looks at it.
+   j_alg / j_enc = the key-management and content-encryption algorithms of the header (never consulted: see enc_gate) *)
+Inductive jwe_state := JOpens | JNoKey | JDamaged.
+Record jwe_wrap := { j_alg : pystr; j_enc : pystr; j_cty_jwt : bool; j_state : jwe_state }.
+(* the plaintext of a wrapper: a compact JWS | claims as plain JSON (nobody signed them) | anything else *)
+Inductive inner :=
+| IJws (alg : pystr) (claims : params) (sg : option signed)
+| IJson (claims : params)
+| IOther.
 Inductive wobj :=
 | WBad                                                   (* not a compact JWS at all *)
-| WObj (alg : pystr) (claims : params) (sg : option signed).
+| WObj (alg : pystr) (claims : params) (sg : option signed)
+| WEnc (h : jwe_wrap) (i : inner).                       (* a JWE around [i] *)
+
+(* Message.from_jwt, first half: decrypt with the provider's keys, then look at the plaintext: a JWS is verified
+   like one that came without wrapper; plaintext that is not a JWS is parsed as JSON and its claims are used as they
+   are: an UNSIGNED object (3d11751: judged like one that says alg "none").  A wrapper that does not open, and
+   plaintext that is neither, are refused.  Encryption adds no authority: everything downstream sees open_wrapper w. *)
+Definition unwrapped (i : inner) : wobj :=
+  match i with
+  | IJws a c s => WObj a c s
+  | IJson c => WObj s_none c None
+  | IOther => WBad
+  end.
+Definition open_wrapper (w : wobj) : wobj :=
+  match w with
+  | WEnc h i => match j_state h with JOpens => unwrapped i | _ => WBad end
+  | _ => w
+  end.
+Definition is_wrapped (w : wobj) : bool := match w with WEnc _ _ => true | _ => false end.
+(* the verified object has no JWS header at all *)
+Definition bare_json (w : wobj) : bool := match w with WEnc _ (IJson _) => true | _ => false end.
 
 (* symbolic term of a signature (for the Dolev-Yao statement): Sig k (alg, claims) *)
 Definition pv_term (v : pv) : term :=
@@ -95,7 +127,7 @@ Definition claims_term (c : params) : term :=
   fold_right (fun kv t => Pair (Pair (Atom (fst kv)) (pv_term (snd kv))) t) (Atom []) c.
 Definition sig_term (k : nat) (alg : pystr) (c : params) : term := Sig k (Pair (Atom alg) (claims_term c)).
 Definition wobj_sig_term (w : wobj) : option term :=
-  match w with
+  match open_wrapper w with
   | WObj _ _ (Some s) => Some (sig_term (s_key s) (s_alg s) (s_claims s))
   | _ => None
   end.
@@ -114,7 +146,9 @@ Record client := {
   c_reg : regalg;                         (* request_object_signing_alg *)
   c_redirect : list pystr;                (* redirect_uris (bases, no query) *)
   c_request_uris : option (list pystr);   (* request_uris *)
-  c_rtypes : list (list pystr) }.         (* response_types_supported, each split on space *)
+  c_rtypes : list (list pystr);           (* response_types_supported, each split on space *)
+  c_enc_alg : option pystr;               (* request_object_encryption_alg *)
+  c_enc_enc : option pystr }.             (* request_object_encryption_enc *)
 Inductive meth := MReqParam | MPublic | MNoneM.
 Inductive hook := HDoRequestUri | HParRequestUri | HPostParse | HOther.
 Record cfg := {
@@ -128,7 +162,9 @@ Record cfg := {
   ru_supported : bool;                    (* request_uri_parameter_supported is not False *)
   ttl : Z;
   jar : list (pystr * list (kty * nat));  (* key jar: issuer -> signature keys; "" = the provider's own *)
-  clients : list client }.
+  clients : list client;
+  prov_enc_algs : option (list pystr);    (* provider_info.get("request_object_encryption_alg_values_supported") *)
+  prov_enc_encs : option (list pystr) }.  (* provider_info.get("request_object_encryption_enc_values_supported") *)
 
 Fixpoint find_client (cs : list client) (cid : pystr) : option client :=
   match cs with [] => None | c :: r => if str_eqb cid (c_id c) then Some c else find_client r cid end.
@@ -199,8 +235,9 @@ Definition claims_modelled (c : params) : bool :=
 
 (* Message.from_jwt *)
 Definition from_jwt (g : cfg) (fallback : option pystr) (w : wobj) : fres :=
-  match w with
+  match open_wrapper w with
   | WBad => FMalformed
+  | WEnc _ _ => FMalformed          (* open_wrapper never answers this: one layer is opened, a JWE inside is IOther *)
   | WObj alg claims sg =>
       if negb (claims_modelled claims) then FUnmodelled else
       match alg_kind alg with
@@ -236,6 +273,7 @@ Definition x_value : N := 7.    Definition x_service : N := 8.          Definiti
 Definition x_expired : N := 12. Definition x_unresolved : N := 13.      Definition x_unregistered_uri : N := 14.
 Definition x_alg : N := 15.     Definition x_issuer_nf : N := 16.
 Definition x_missing_attr : N := 17.  Definition x_missing_value : N := 18.
+Definition x_attr : N := 11.    Definition x_type : N := 19.
 (* error codes / descriptions *)
 Definition e_invalid_request : N := 1.  Definition e_unauthorized_client : N := 2.
 Definition d_alg : N := 1.  Definition d_rtype : N := 2.  Definition d_redirect : N := 3.  Definition d_unknown : N := 4.
@@ -249,9 +287,10 @@ Definition docs := list (pystr * wobj).       (* what the stub httpc serves: url
 (* ------------------------------------------------------------------ client authentication (authorization endpoint) *)
 Inductive rpres := RpContinue | RpRaise | RpIdent (cid : pystr) | RpAny | RpUnmodelled.
 (* RequestParam._verify: JWT(keyjar).unpack(request["request"]) then client_id = iss *)
-Definition request_param (g : cfg) (w : wobj) : rpres :=
+Definition request_param_plain (g : cfg) (w : wobj) : rpres :=
   match w with
   | WBad => RpAny
+  | WEnc _ _ => RpContinue
   | WObj alg claims sg =>
       match alg_kind alg with
       | AlgUnknown => RpUnmodelled
@@ -271,6 +310,32 @@ Definition request_param (g : cfg) (w : wobj) : rpres :=
               end
           end
       end
+  end.
+
+(* cryptojwt JWT.unpack of a JWE: decrypt (any failure is an exception the method loop skips over); a header
+   cty "JWT" => the plaintext is verified as a JWS like an unwrapped one (plaintext that is not a JWS: `raise
+   Exception()`, skipped); any other / no cty => the plaintext is read as JSON and, when it is JSON, its claims are
+   taken as they are: client_id = iss WITHOUT any signature (a JWS is not JSON: the raw text comes back and
+   `.get("jti")` on it is an AttributeError, skipped) *)
+Definition request_param (g : cfg) (w : wobj) : rpres :=
+  match w with
+  | WEnc h i =>
+      match j_state h with
+      | JOpens =>
+          if j_cty_jwt h then
+            match i with IJws a c s => request_param_plain g (WObj a c s) | _ => RpContinue end
+          else
+            match i with
+            | IJson c => match assoc k_iss c with
+                         | Some (PS_ x) => RpIdent x
+                         | Some (PL_ _) => RpUnmodelled
+                         | None => RpContinue
+                         end
+            | _ => RpContinue
+            end
+      | _ => RpContinue
+      end
+  | _ => request_param_plain g w
   end.
 
 Inductive authn :=
@@ -383,6 +448,22 @@ Definition reverify (g : cfg) (m : req) : outcome :=
   if missing_required (oidc g) (r_params m) then ErrResp e_invalid_request d_missing None
   else if oidc g then oidc_checks m else Acc m.
 
+(* the two AllowedAlgorithms calls _do_request_uri makes when the fetched object came in a JWE: both are given a
+   value of the JWS header ("alg", then "enc": there is none), never the JWE header, so no wrapped object passes:
+   registered request_object_encryption_alg (else the provider's supported set; absent: `in None` is a TypeError)
+   must contain the SIGNING algorithm, and then nothing contains None.  By value and pushed, the registered
+   request_object_encryption_alg / _enc are not consulted at all (from_jwt is called without encalg / encenc). *)
+Definition enc_gate (g : cfg) (c : client) (alg : pystr) : N :=
+  match (match c_enc_alg c with Some s => Some [s] | None => prov_enc_algs g end) with
+  | None => x_type
+  | Some l =>
+      if negb (str_in alg l) then x_alg
+      else match (match c_enc_enc c with Some s => Some [s] | None => prov_enc_encs g end) with
+           | None => x_type
+           | Some _ => x_alg
+           end
+  end.
+
 (* Authorization._do_request_uri; returns the new state, the outcome and the urn that was redeemed *)
 Definition do_request_uri (g : cfg) (d : docs) (st : state) (r : req) (cid : option pystr)
   : state * outcome * option pystr :=
@@ -415,7 +496,9 @@ Definition do_request_uri (g : cfg) (d : docs) (st : state) (r : req) (cid : opt
             | Some w =>
                 match from_jwt g cid w with
                 | FOk v =>
-                    if negb (allowed g c (v_alg v)) then (st, Exc x_alg, None)
+                    if bare_json w then (st, Exc x_attr, None)          (* _ver_request.jws_header is None *)
+                    else if negb (allowed g c (v_alg v)) then (st, Exc x_alg, None)
+                    else if is_wrapped w then (st, Exc (enc_gate g c (v_alg v)), None)
                     else (st, reverify g {| r_params := update (r_params r) (v_claims v); r_vr := Some v |}, None)
                 | FMalformed => (st, AnyRefusal, None)
                 | FUnmodelled => (st, OUnmodelled, None)
@@ -657,4 +740,13 @@ Fixpoint run_h (g : cfg) (d : docs) (st : state) (h : hist) (ops : list op) : li
   | o :: rest => let '(st', r) := step g d st o in
                  let h' := hist_after g st o r h in
                  (st', r, h') :: run_h g d st' h' rest
+  end.
+(* the state of the provider after a history of operations *)
+Definition state_after (g : cfg) (d : docs) (t0 : Z) (pre : list op) : state :=
+  fold_left (fun st o => fst (step g d st o)) pre (init t0).
+(* a wrapper that opens onto a JWS or onto JSON claims and says cty "JWT" in its header *)
+Definition opens_on_claims (w : wobj) : Prop :=
+  match w with
+  | WEnc h i => j_state h = JOpens /\ j_cty_jwt h = true /\ i <> IOther
+  | _ => True
   end.
